@@ -243,7 +243,8 @@ Definition load (c : cfg) (sched : option (list Q)) (gs : list ngate)
   : res (list (nat * (list Q * list Q)) * Q) :=
   rbind (compile_gates c gs 0) (fun o =>
     match fst o with
-    | [] => Err                                  (* compile returns (None, None); set_coeffs(None): ValueError *)
+    | [] => if load_accepts_empty then Ok ([], snd o)   (* (None, None) -> empty tables, phase still recorded *)
+            else Err                             (* compile returns (None, None); set_coeffs(None): ValueError *)
     | il =>
         if forallb (fun lb => match control_of c lb with Some _ => true | None => false end) (labels_of il) then
           rbind (of_opt (to_instrs il)) (fun ci =>
